@@ -51,6 +51,12 @@ def graph_family(tier, seed):
              edges=[(1, 3, {}), (3, 3, {'formula': F}), (3, 1, {"y'": 0, 'x': True})],
              initial=[1]),                                      # ids with a gap
         dict(nodes={0: {'formula': 'x'}}, edges=[], initial=[0]),   # single dead end
+        # node labels whose top-level operator binds weaker than the glue
+        # the translation puts around them
+        dict(nodes={0: {'formula': 'x => (y = 1)'}, 1: {'formula': 'x <=> (y < 2)'},
+                    2: {'formula': r'x \/ (y = 2)', 'y': 2}},
+             edges=[(0, 1, {}), (1, 2, {'formula': F}), (2, 0, {}), (1, 1, {})],
+             initial=[0, 1]),
         dict(nodes={0: {}, 1: {}, 2: {'x': False}},
              edges=[(0, 0, {}), (0, 1, {'formula': F}), (1, 2, {'formula': F, "x'": False}),
                     (2, 0, {"y'": 1, 'y': 0})], initial=[0, 1, 2]),
@@ -70,7 +76,7 @@ def graph_family(tier, seed):
             elif r < 0.35:
                 lab['x'] = rnd.choice([True, False])
             elif r < 0.45:
-                lab['formula'] = rnd.choice(['(y # 1)', r'(x \/ (y = 0))'])
+                lab['formula'] = rnd.choice(['(y # 1)', r'x \/ (y = 0)', 'x => (y = 2)', 'x <=> (y = 0)', '~ x'])
             nodes[u] = lab
         edges = list()
         for u in ids:
